@@ -16,12 +16,122 @@ VERIF = os.path.dirname(os.path.dirname(os.path.abspath(__file__)))
 MAX_BLOCKS = 400
 
 
+_REF = None
+
+
+def reference():
+    global _REF
+    if _REF is None:
+        p = os.path.join(VERIF, "tables", "known_functions.json")
+        if not os.path.exists(p):
+            return None
+        with open(p) as fh:
+            _REF = json.load(fh)
+    return _REF
+
+
 def known_functions():
-    p = os.path.join(VERIF, "tables", "known_functions.json")
-    if not os.path.exists(p):
-        return None
-    with open(p) as fh:
-        return set(json.load(fh)["functions"])
+    r = reference()
+    return set(r["functions"]) if r else None
+
+
+def _walk(x, fn):
+    if isinstance(x, dict):
+        fn(x)
+        for v in x.values():
+            _walk(v, fn)
+    elif isinstance(x, list):
+        for v in x:
+            _walk(v, fn)
+
+
+def undo_renames(F, Fn):
+    """Map renamed private functions and private fields back to their names in the reference inventory.
+    A function of the reference that is missing is matched with a function that is new, private, has the same owner type, kind and
+    signature and (when there are several) the most similar callee set; a field is matched by position and type when its type has the
+    same number of fields with the same types.  Returns (function renames {new: old}, field renames {(adt, index): (new, old)})."""
+    ref = reference()
+    if ref is None or "fingerprints" not in ref:
+        return {}, {}
+    fp = ref["fingerprints"]
+    present = {k for k, f in F.fns.items() if f.crate in ("saphyr_parser", "saphyr")}
+    missing = [k for k in fp if k not in present and not fp[k]["pub"] and not fp[k]["trait"] and fp[k]["kind"] in ("Fn", "AssocFn")]
+    unknown = [k for k in present if k not in fp and F.fns[k].kind in ("Fn", "AssocFn") and not F.fns[k].d.get("pub")
+               and not F.fns[k].d.get("impl_trait") and not F.fns[k].d.get("trait_of") and not F.fns[k].d.get("closure_of")]
+    renames = {}
+    used = set()
+    for m in sorted(missing):
+        best, best_score, second = None, -1.0, -1.0
+        for u in unknown:
+            if u in used:
+                continue
+            f = F.fns[u]
+            if [f.d.get("inputs"), f.d.get("output")] != fp[m]["sig"] or f.d.get("impl_adt") != fp[m]["impl"] or f.kind != fp[m]["kind"]:
+                continue
+            a = set(fp[m]["callees"])
+            b = {ck for _, _, ck, _ in f.calls() if ck}
+            score = (len(a & b) / len(a | b)) if (a | b) else 1.0
+            size = min(len(f.blocks), fp[m]["blocks"]) / max(len(f.blocks), fp[m]["blocks"], 1)
+            score = 0.7 * score + 0.3 * size
+            if score > best_score:
+                best, second, best_score = u, best_score, score
+            elif score > second:
+                second = score
+        if best is not None and best_score >= 0.6 and best_score - second >= 0.1:
+            renames[best] = m
+            used.add(best)
+    if renames:
+        def fix(d):
+            for key in ("key", "resolved", "path", "closure_of"):
+                v = d.get(key)
+                if isinstance(v, str) and v in renames:
+                    d[key] = renames[v]
+        for f in F.fns.values():
+            _walk(f.d.get("blocks"), fix)
+            _walk(f.d.get("promoted"), fix)
+            if f.d.get("closure_of") in renames:
+                f.d["closure_of"] = renames[f.d["closure_of"]]
+        for new, old in renames.items():
+            f = F.fns.pop(new)
+            f.d["key"] = old
+            f.d["path"] = old
+            f.d["name"] = old.split("::")[-1]
+            nf = Fn(f.d, f.crate)
+            F.fns[old] = nf
+            for c in F.crates.values():
+                if new in c.fns:
+                    del c.fns[new]
+                    c.fns[old] = nf
+    # fields
+    frenames = {}
+    for path, variants in ref.get("adts", {}).items():
+        a = F.adts.get(path)
+        if a is None or len(a["variants"]) != len(variants):
+            continue
+        for vi, (v, rv) in enumerate(zip(a["variants"], variants)):
+            if len(v["fields"]) != len(rv) or [x["ty"] for x in v["fields"]] != [t for _, t in rv]:
+                continue
+            for i, (fld, (rn, rt)) in enumerate(zip(v["fields"], rv)):
+                if fld["name"] != rn and not fld.get("pub"):
+                    frenames[(path, vi, i)] = (fld["name"], rn)
+                    fld["name"] = rn
+    if frenames:
+        byadt = {}
+        for (path, vi, i), (new, old) in frenames.items():
+            byadt.setdefault(path, {})[(i, new)] = old
+
+        def fixf(d):
+            if d.get("k") == "field" and d.get("of") in byadt:
+                o = byadt[d["of"]].get((d.get("i"), d.get("n")))
+                if o:
+                    d["n"] = o
+            if d.get("k") == "agg" and d.get("adt") in byadt and isinstance(d.get("fields"), list):
+                m = byadt[d["adt"]]
+                d["fields"] = [m.get((i, n), n) for i, n in enumerate(d["fields"])]
+        for f in F.fns.values():
+            _walk(f.d.get("blocks"), fixf)
+            _walk(f.d.get("promoted"), fixf)
+    return renames, frenames
 
 
 def _remap(x, off, boff, poff):
@@ -92,6 +202,7 @@ def normalise(F, Fn):
     known = known_functions()
     if known is None or os.environ.get("VERIF_NO_NORMALIZE"):
         return []
+    F.renamed_functions, F.renamed_fields = undo_renames(F, Fn)
     from . import callgraph
     cands = {}
     for k, f in F.fns.items():
